@@ -63,7 +63,14 @@ func runC17(c *core.Ctx) {
 		}
 		return -1
 	}
+	helper := func(callee *ssa.Function) bool {
+		if callee.Pkg != combine.Pkg {
+			return false
+		}
+		return callee.Parent() != nil || (callee.Object() != nil && !callee.Object().Exported())
+	}
 	ev := &bits.Eval{
+		Inline: helper,
 		LeafName: func(v ssa.Value) string {
 			if i := paramIdx(combine, v); i >= 0 {
 				return msgIDLayout[i].name
@@ -77,15 +84,21 @@ func runC17(c *core.Ctx) {
 			return 0
 		},
 	}
-	cps, err := paths.Enumerate(combine, paths.Config{})
-	if err != nil || len(cps) != 1 || len(cps[0].Results) != 1 {
-		c.Unknown("C17-COMBINE", "cmpp.CombineMsgID", c.Prog.Pos(combine.Pos()), "CombineMsgID is not a single straight-line path")
-		return
-	}
-	vec := ev.Of(cps[0].Results[0])
+	// the control flow of both functions is independent of the arguments (straight-line code, or a loop over a table of
+	// widths): it is executed concretely while the data are bit vectors
+	cres, err := ev.Interp(combine)
 	pos := c.Prog.Pos(combine.Pos())
-	c.Sample(map[string]string{"CombineMsgID": vec.Describe(64)})
+	var vec bits.Vec
+	if err != nil || len(cres) != 1 {
+		c.Unknown("C17-COMBINE", "cmpp.CombineMsgID", pos, fmt.Sprintf("CombineMsgID cannot be evaluated as input-independent control over bit vectors: %v", err))
+	} else {
+		vec = cres[0]
+		c.Sample(map[string]string{"CombineMsgID": vec.Describe(64)})
+	}
 	for _, f := range msgIDLayout {
+		if err != nil || len(cres) != 1 {
+			break
+		}
 		key := "cmpp.CombineMsgID#" + f.name
 		if vec.Field(f.shift, f.width, f.name, 0) {
 			c.OK("C17-COMBINE", key, pos, fmt.Sprintf("%s -> bits %d..%d", f.name, f.shift+f.width-1, f.shift))
@@ -94,21 +107,21 @@ func runC17(c *core.Ctx) {
 		}
 	}
 	// --- SPLIT
-	sev := &bits.Eval{LeafName: func(v ssa.Value) string {
+	sev := &bits.Eval{Inline: helper, LeafName: func(v ssa.Value) string {
 		if paramIdx(split, v) == 0 {
 			return "id"
 		}
 		return ""
 	}}
-	sps, err := paths.Enumerate(split, paths.Config{})
-	if err != nil || len(sps) != 1 || len(sps[0].Results) != 7 {
-		c.Unknown("C17-SPLIT", "cmpp.SplitMsgID", c.Prog.Pos(split.Pos()), "SplitMsgID is not a single straight-line path with seven results")
+	sres, err := sev.Interp(split)
+	if err != nil || len(sres) != 7 {
+		c.Unknown("C17-SPLIT", "cmpp.SplitMsgID", c.Prog.Pos(split.Pos()), fmt.Sprintf("SplitMsgID cannot be evaluated as input-independent control over bit vectors with seven results: %v", err))
 		return
 	}
 	spos := c.Prog.Pos(split.Pos())
 	covered := make([]int, 64)
 	for i, f := range msgIDLayout {
-		v := sev.Of(sps[0].Results[i])
+		v := sres[i]
 		key := "cmpp.SplitMsgID#" + f.name
 		if v.Field(0, f.width, "id", f.shift) && v.ZeroOutside(0, f.width, 64) {
 			c.OK("C17-SPLIT", key, spos, fmt.Sprintf("result %d = id bits %d..%d", i, f.shift+f.width-1, f.shift))
